@@ -285,6 +285,17 @@ def _ptrcheck(b, tr, bi, t):
 def _bounds(ctx, b, tr, bi, t):
     ln, ix = t['ops']
     io = tr.origin(ix)
+    if io['o'] == 'call':
+        # index drawn from Uniform::new(0, len(v)) into the slice of the same, never resized, v
+        c2 = _uniform_index_container(b, tr, io)
+        lo = tr.origin(ln)
+        c1 = None
+        if lo['o'] == 'rvalue' and lo['rv']['r'] == 'unop' and 'PtrMetadata' in lo['rv']['op']:
+            c1 = container_root(b, tr, lo['rv']['a'])
+        elif lo['o'] == 'call' and call_matches(lo['term'], 'Vec::<T, A>::len', '<impl [T]>::len'):
+            c1 = container_root(b, tr, lo['term']['args'][0])
+        if c2 is not None and c1 == c2 and not _resized(b, tr, c2):
+            return 'discharged', 'bounds-uniform-index', 'index = Uniform::new(0, len(_%d)).sample(..) into the never resized _%d' % (c2, c2)
     if io['o'] != 'const':
         return 'violation', 'bounds', 'index is not a constant'
     k = const_value(io['c'])
@@ -537,6 +548,34 @@ def _panic_guard(oa, b, cfg, tr, bi):
     return None
 
 
+RESIZERS = ('Vec::<T, A>::push', 'Vec::<T, A>::pop', 'Vec::<T, A>::clear', 'Vec::<T, A>::truncate', 'Vec::<T, A>::remove',
+            'Vec::<T, A>::swap_remove', 'Vec::<T, A>::append', 'Vec::<T, A>::drain', 'Vec::<T, A>::retain', 'Vec::<T, A>::insert',
+            'Vec::<T, A>::split_off')
+
+
+def _resized(b, tr, cont):
+    for bi2, tt in b.calls():
+        if call_matches(tt, *RESIZERS) and tt['args'] and container_root(b, tr, tt['args'][0]) == cont:
+            return True
+    return False
+
+
+def _uniform_index_container(b, tr, idx):
+    """Container local v if the index origin is Uniform::new(0, v.len()).sample(..), else None."""
+    if idx['o'] != 'call' or not call_matches(idx['term'], 'Distribution<X>>::sample', 'Distribution::sample'):
+        return None
+    dist = tr.origin(idx['term']['args'][0])
+    if dist['o'] != 'call' or not call_matches(dist['term'], 'Uniform::<X>::new'):
+        return None
+    lo = tr.origin(dist['term']['args'][0])
+    hi = tr.origin(dist['term']['args'][1])
+    if not (lo['o'] == 'const' and const_value(lo['c']) == 0):
+        return None
+    if hi['o'] != 'call' or not call_matches(hi['term'], 'Vec::<T, A>::len', '<impl [T]>::len'):
+        return None
+    return container_root(b, tr, hi['term']['args'][0])
+
+
 def _expect_of_uniform_index(b, tr, t, direct=False):
     if direct:
         o = {'o': 'call', 'term': t}
@@ -786,18 +825,22 @@ def _r3(ctx, oa):
                 if d['o'] == 'rvalue' and d['rv']['r'] == 'binop' and d['rv']['op'] == 'Sub':
                     pconv = p['o'] == 'arg' and p['l'] == 1 and field_path(p['p'])[:1] == ['convergence']
                     old_l = oa.arg_local(oa.dec_args.get('old'))
+                    from ..mirutil import copy_web
+                    web = copy_web(b, tr, cfg.reach, old_l) if old_l is not None else set()
+                    ihdr = oa.inner['header']
+
+                    def snapshot(l):
+                        # a copy of the running score taken in the outer body before the inner loop starts
+                        dd = defs.single(l)
+                        return bool(dd) and dd[2] == 'assign' and dd[3]['r'] == 'use' and dd[0] in oa.outer['body'] and \
+                            dd[0] not in oa.inner['body'] and cfg.dominates(dd[0], ihdr) and tr.origin(dd[3]['a']).get('l') in web
                     cur = oa.arg_local(d['rv']['a'])
-                    start = tr.origin(d['rv']['b'])
                     # score_start: a snapshot of score_current taken in the outer body before the inner loop
                     start_ok = False
-                    for (cl, cbb) in tr.chain(d['rv']['b']):
-                        if cl == old_l:
-                            break
-                        dd = defs.single(cl)
-                        if dd and dd[2] == 'assign' and dd[3]['r'] == 'use' and dd[3]['a'].get('l') == old_l and \
-                                not dd[3]['a'].get('p') and dd[0] in oa.outer['body'] and dd[0] not in oa.inner['body']:
+                    for (cl, cbb) in list(tr.chain(d['rv']['b'])) + [(tr.origin(d['rv']['b']).get('l'), None)]:
+                        if cl is not None and cl in web and snapshot(cl):
                             start_ok = True
-                    inc_ok = pconv and cur == old_l and start_ok
+                    inc_ok = pconv and cur in web and not snapshot(cur) and start_ok
                     # true edge increments, false edge resets
                     tt, ft = t['otherwise'], [x[1] for x in t['arms'] if x[0] == '0'][0]
                     inc_blocks = cfg.reachable_from([tt], avoid={ft}) & region
